@@ -5,6 +5,7 @@ import (
 	"fmt"
 	"regexp"
 	"strings"
+	"time"
 
 	"github.com/junioryono/godi/v4/internal/vsched"
 	"github.com/junioryono/godi/v4/verifmc/kit"
@@ -165,3 +166,5 @@ func seqOnce(body func()) *vsched.Sched {
 var _ = kit.Describe
 
 func jsonUnmarshal(b []byte, v any) error { return json.Unmarshal(b, v) }
+
+func timeNow() time.Time { return time.Now() }
